@@ -711,7 +711,7 @@ class SemFamily(Family):
                 ncall = len(callers)
             base = {'family': self.name, 'limit': L, 'lax': lax, 'sem_timeout': sem_to, 'callers': callers}
             if j % 3 == 2 and rng.random() < 0.5:
-                base['attempt_timeout'] = 0.45  # bodies of 0.7 s and 3 s are cut off (and unwind), 0.2 s ones are not
+                base['attempt_timeout'] = 0.4513  # (an odd value: no ties with arrival + acquisition-timeout sums) bodies of 0.7 s and 3 s are cut off (and unwind), 0.2 s ones are not
             if j % 3 == 1:
                 base['retries'] = rng.choice([1, 2])
                 base['wait'] = rng.choice([0.0, 0.033, 0.4])
